@@ -175,9 +175,17 @@ BatchGet(t, i) ==
      ELSE LET base == it0 * t.b
               rs   == [m \in 1..t.b |-> Gi(t.sub, base + m - 1)]
               \* the first outcome that makes the loop raise
-              Raises(m) == ~rs[m].ok /\ (rs[m].exc # "IndexError" \/ m = 1 \/ t.drop)
+              \* `except IndexError: if i == 0 or drop_last: raise; else: pass` - the
+              \* loop goes on with the next member.
+              \* [S23] original code: ANY IndexError is passed over - also the one a
+              \* user function raised for an example that exists; repaired: only an
+              \* index beyond the input's len() is (no len(): as before)
+              ln   == LenO(t.sub)
+              Skipped(m) == /\ ~rs[m].ok /\ IsIndexErr(rs[m].exc) /\ m # 1 /\ ~t.drop
+                            /\ ("S23" \in Unfixed \/ ~ln.ok \/ base + m - 1 >= ln.n)
+              Raises(m) == ~rs[m].ok /\ ~Skipped(m)
               p    == IF \E m \in 1..t.b : Raises(m)
-                      THEN CHOOSE m \in 1..t.b : Raises(m) /\ \A q \in 1..(m-1) : ~Raises(q)
+                      THEN CHOOSE m \in 1..t.b : Raises(m) /\ \A z \in 1..(m-1) : ~Raises(z)
                       ELSE 0
               oks  == SelectIdx(rs, LAMBDA r : r.ok, 1)
           IN IF p # 0 THEN ErrV(rs[p].exc)
